@@ -24,7 +24,7 @@ Record ms := mkMs {
   k_server : option bool;         (* result of the serving future *)
   k_n : nat;                      (* connection ids seen are < k_n *)
   k_conns : nat -> cm;
-  k_snap : nat -> cm              (* the counters at the moment of the signal *)
+  k_snap : nat -> cm              (* the counters at the moment of the (first) signal *)
 }.
 Definition ms0 : ms := mkMs false false None 0 (fun _ => cm0) (fun _ => cm0).
 
@@ -58,7 +58,7 @@ Definition track (m : ms) (o : oev) : ms :=
   | OResp c => updc c cm_resp m
   | OFault c => updc c cm_fault m
   | ORefused c => updc c (fun x => x) m
-  | OSignal => mkMs true true (k_server m) (k_n m) (k_conns m) (k_conns m)
+  | OSignal => mkMs true true (k_server m) (k_n m) (k_conns m) (if k_fired m then k_snap m else k_conns m)
   | OLost | OMakeArm => mkMs (k_fired m) true (k_server m) (k_n m) (k_conns m) (k_snap m)
   | OServer r => mkMs (k_fired m) (k_cause m) (Some r) (k_n m) (k_conns m) (k_snap m)
   | OCancel | OAcceptErr | OQuiet => m
